@@ -1,4 +1,7 @@
+mod evm;
 mod framework;
+mod market;
+mod refevm;
 mod mvm;
 mod props;
 mod rng;
